@@ -9,7 +9,7 @@ ID = 'C07'
 RULE = ('A case is (file, optional cut = keep only the first k result times, list of navigation actions with abstract '
         'arguments resolved against the file at run time). Actions: first, last, next, prev, index=i (0, n-1, -1, -n, middle, '
         'any i in [-n, n-1]), time=t and step=s (exact, between two results at a fraction, before the first, after the last), '
-        'history(one of two fixed selections). exhaustive: every sequence of length <= 3 (4 in thorough) over a 19-letter '
+        'history(one of two fixed selections). exhaustive: every sequence of length <= 3 (4 in thorough) over a 20-letter '
         'alphabet on the shipped files under 100 kB with >= 2 times and on 2-time cuts of others, every sequence of length <= 2 '
         'on every other file with >= 2 times; random: Hypothesis lists of up to 40 actions on any file with >= 2 times and on '
         'truncated copies with 1..N-1 times. After every action (index, time, step, every table: row names, column names, '
@@ -23,7 +23,7 @@ ASSUMPTIONS = ['index accepts -n..n-1 (negative = from the end, as last() uses)'
 ALPHABET = [['first'], ['last'], ['next'], ['prev'],
             ['index', 'zero'], ['index', 'neg1'], ['index', 'negn'], ['index', 'mid'],
             ['time', 'exact', 1], ['time', 'between', 0, 0.3], ['time', 'before'], ['time', 'after'],
-            ['step', 'exact', 0], ['step', 'between', 0, 0.7], ['time', 'inf-after'], ['step', 'far-after'],
+            ['step', 'exact', 0], ['step', 'between', 0, 0.7], ['time', 'inf-after'], ['step', 'far-after'], ['other', 'last'],
             ['history', 0], ['history', 1], ['history', 2]]
 
 # ------------------------------------------------------------------------------------------------
@@ -83,7 +83,8 @@ def random_case(draw):
         st.one_of(st.tuples(st.sampled_from(['time', 'step']), st.just('exact'), k),
                   st.tuples(st.sampled_from(['time', 'step']), st.just('between'), k, frac),
                   st.tuples(st.sampled_from(['time', 'step']), st.sampled_from(['before', 'after', 'before', 'after', 'far-after', 'inf-after', 'far-before', 'inf-before']))).map(list),
-        st.tuples(st.just('history'), st.integers(0, 2)).map(list))
+        st.tuples(st.just('history'), st.integers(0, 2)).map(list),
+        st.tuples(st.just('other'), st.sampled_from(['open', 'last', 'first', 'next'])).map(list))
     ops = draw(st.lists(op, min_size=1, max_size=40))
     return {'file': rel, 'cut': cut, 'ops': ops}
 
@@ -161,6 +162,7 @@ def opclass(op):
     if op[0] == 'index':
         return 'index'
     if op[0] in ('time', 'step'): return '%s-%s' % (op[0], op[1])
+    if op[0] == 'other': return 'other'
     return 'history'
 
 
@@ -187,6 +189,7 @@ def run_case(case, R):
     lst = None
     with R.lib('open'):
         lst = GL.open_listing(path)
+    other = [None]
     try:
         cur = 0
         trail = []
@@ -227,6 +230,15 @@ def run_case(case, R):
                         h = lst.history(sel)
                         expect = {cur}; shown = 'history(%r)' % (sel,)
                         if h is None: R.fail('nav:history:none', '%s: history(%r) returned None' % (key, sel))
+                elif name == 'other':
+                    # a second listing object of the same file, alive next to this one, is opened / moved: nothing to this one
+                    if other[0] is None or op[1] == 'open':
+                        if other[0] is not None: other[0].close()
+                        other[0] = GL.open_listing(path); shown = 'other = t2listing(same file)'
+                    elif op[1] == 'last': other[0].last(); shown = 'other.last()'
+                    elif op[1] == 'first': other[0].first(); shown = 'other.first()'
+                    else: other[0].next(); shown = 'other.next()'
+                    expect = {cur}; cls = 'other-listing-of-the-same-file'
                 else:
                     raise HarnessError('unknown action %r' % (op,))
             trail.append(shown)
@@ -254,6 +266,7 @@ def run_case(case, R):
         R.nontrivial(backward)
     finally:
         lst.close()
+        if other[0] is not None: other[0].close()
 
 
 LEVEL_TEXT = ('Exhaustive enumeration of all navigation sequences up to length 3 (quick) / 4 (thorough) over a 16-action '
